@@ -283,13 +283,19 @@ pub fn c06() -> SimCheck {
     SimCheck {
         id: "C06",
         bias: Bias {
-            w_lag: 6,
+            w_lag: 8,
             w_burst: 10,
+            // membership entries in the apply stream (learners join and are promoted; a node that restarted may
+            // fail to apply a promotion of a learner it no longer knows): config entries split the dispatch batches
+            learners: 2,
+            w_join: 4,
+            w_restart: 7,
+            w_stop: 3,
             ..write_bias()
         },
         quick: 1000,
         thorough: 30_000,
-        rule: "scenario = C05 family with put/delete/CAS/TTL-put streams, bursts and state-machine apply lag; oracle from the state-machine observer: per node (and incarnation) applied indexes are exactly last_applied+1, +2, … (no gap, no repeat), the command applied at index i is identical on every node and equals the committed entry i, and each node's final KV equals the reference model applied to the committed prefix 1..=last_applied; non-trivial = >=3 nodes applied >=10 entries across >=1 leader change; distinct by (leader map, faults, applied length)",
+        rule: "scenario = C05 family with put/delete/CAS/TTL-put streams, bursts, state-machine apply lag, and membership entries (learner joins / promotions, also failing ones) in the apply stream; oracle from the state-machine observer: per node (and incarnation) applied indexes are exactly last_applied+1, +2, … (no gap, no repeat), the command applied at index i is identical on every node and equals the committed entry i, and each node's final KV equals the reference model applied to the committed prefix 1..=last_applied; non-trivial = >=3 nodes applied >=10 entries across >=1 leader change; distinct by (leader map, faults, applied length)",
         assumptions: vec!["crashes are process crashes at arbitrary instants (written-but-unsynced data survives, everything in memory is lost): the fault model d-engine documents for its buffered log (\"process crash safe, power loss unsafe\"); power loss is explored by C18 on the log itself", "snapshots are disabled in this family (snapshot boundary semantics are owned by C16/C33)"],
         required: vec!["writes_acked"],
         judge: |_sc, res, out| {
@@ -338,7 +344,10 @@ pub fn c10() -> SimCheck {
             w_read: 8,
             w_crash: 5,
             w_restart: 9,
-            w_restart_cluster: 2,
+            w_restart_cluster: 3,
+            w_stop: 4,
+            // slow disks: acknowledged entries stay memory-only for a while, so graceful stops must flush them
+            w_disk_lag: 5,
             read_policies: vec![1],
             final_reads: true,
             ..write_bias()
